@@ -34,10 +34,12 @@ def updT (t : Name → Option FV) (f : Name) (u : FV → FV) : Name → Option F
 
 /-! ### primitive mutations seen through `T` -/
 
+omit [Rules] in
 theorem T_cons_data {o : Obj} (h : o.isFunction = false) (gs : List Obj) : T (o :: gs) = T gs := by
   funext g
   simp [T, findFunc, List.find?, h]
 
+omit [Rules] in
 theorem T_cons_fn {o : Obj} {f : Name} (hf : o.isFunction = true) (hs : o.sym = .named f) (gs : List Obj) :
     T (o :: gs) = fun g => if g = f then some (fview o) else T gs g := by
   funext g
@@ -48,6 +50,7 @@ theorem T_cons_fn {o : Obj} {f : Name} (hf : o.isFunction = true) (hs : o.sym = 
       exact fun e => hg e.symm
     simp [T, findFunc, List.find?, this, hg]
 
+omit [Rules] in
 /-- an update of `find_func(f)` that acts on the view as `v` -/
 theorem T_updFunc {u : Obj → Obj} {v : FV → FV} (hu : KeepsId u) (huv : ∀ o, fview (u o) = v (fview o))
     (gs : List Obj) (f : Name) : T (updFunc gs f u) = updT (T gs) f v := by
@@ -59,6 +62,7 @@ theorem T_updFunc {u : Obj → Obj} {v : FV → FV} (hu : KeepsId u) (huv : ∀ 
     funext o; exact huv o
   · simp [hg]
 
+omit [Rules] in
 /-- updating an object that is not a function does not change the table -/
 theorem T_updFirst_data {p : Obj → Bool} {u : Obj → Obj} (hp : ∀ o, p o = true → o.isFunction = false)
     (hu : KeepsId u) (gs : List Obj) : T (updFirst p u gs) = T gs := by
@@ -77,12 +81,14 @@ theorem T_updFirst_data {p : Obj → Bool} {u : Obj → Obj} (hp : ∀ o, p o = 
       simp only [findFunc, List.find?] at ih ⊢
       rw [ih]
 
+omit [Rules] in
 theorem updT_id (t : Name → Option FV) (f : Name) : updT t f (fun v => v) = t := by
   funext g
   by_cases hg : g = f
   · subst hg; simp [updT]
   · simp [updT, hg]
 
+omit [Rules] in
 theorem updT_updT (t : Name → Option FV) (f : Name) (u1 u2 : FV → FV) :
     updT (updT t f u1) f u2 = updT t f (fun v => u2 (u1 v)) := by
   funext g
@@ -108,13 +114,16 @@ def orDef (b : Bool) : FV → FV := fun v => { v with isDefinition := v.isDefini
 def rootAll (t : Name → Option FV) (l : List Name) : Name → Option FV :=
   fun g => (t g).map (fun v => if g ∈ l then setRoot v else v)
 
+omit [Rules] in
 theorem rootAll_nil (t : Name → Option FV) : rootAll t [] = t := by
   funext g
   simp [rootAll]
 
+omit [Rules] in
 theorem addRefs_nil : addRefs [] = fun v => v := by
   funext v; simp [addRefs]
 
+omit [Rules] in
 theorem addRefs_addRefs (a b : List Name) : (fun v => addRefs b (addRefs a v)) = addRefs (a ++ b) := by
   funext v; simp [addRefs, List.append_assoc]
 
@@ -124,6 +133,7 @@ theorem T_newAnon (cur : Option Name) (st : PState) (ty : ObjTy) (hi : Bool) (us
     T (newAnon cur st ty hi uses).1.globals = T st.globals :=
   T_cons_data rfl _
 
+omit [Rules] in
 theorem T_recordFnRef_some {f : Name} {st st' : PState} {g : Name} (h : recordFnRef (some f) st g = .ok st') :
     T st'.globals = updT (T st.globals) f (addRefs [g]) := by
   unfold recordFnRef at h
@@ -135,6 +145,7 @@ theorem T_recordFnRef_some {f : Name} {st st' : PState} {g : Name} (h : recordFn
     · exact fun _ => ⟨rfl, rfl⟩
     · exact fun _ => rfl
 
+omit [Rules] in
 theorem T_recordFnRef_none {st st' : PState} {g : Name} (h : recordFnRef none st g = .ok st') :
     T st'.globals = updT (T st.globals) g setRoot := by
   unfold recordFnRef at h
@@ -200,8 +211,10 @@ theorem T_initItems_some {f : Name} : ∀ (items : List InitItem) {st st' : PSta
         rw [ih', T_newAnon]
         simp [initFnRefs]
 
+omit [Rules] in
 theorem setRoot_idem (v : FV) : setRoot (setRoot v) = setRoot v := rfl
 
+omit [Rules] in
 theorem rootAll_cons (t : Name → Option FV) (g : Name) (l : List Name) :
     rootAll (updT t g setRoot) l = rootAll t (g :: l) := by
   funext h
@@ -268,6 +281,7 @@ theorem T_initItems_none : ∀ (items : List InitItem) {st st' : PState} {ss : L
         rw [ih', T_newAnon]
         simp [initFnRefs]
 
+omit [Rules] in
 theorem data_pred (s : Sym) : ∀ o : Obj, (o.sym == s && !o.isFunction) = true → o.isFunction = false := by
   intro o h
   simp only [Bool.and_eq_true, Bool.not_eq_true'] at h
@@ -336,6 +350,7 @@ theorem T_bodyItem {f : Name} {st st' : PState} {b : BodyItem} {us : List Sym}
     rw [T_cons_data rfl]
     simp [bodyFnRefs, addRefs_nil, updT_id]
 
+omit [Rules] in
 theorem bodyFnRefs_cons (b : BodyItem) (rest : List BodyItem) :
     bodyFnRefs (b :: rest) = bodyFnRefs [b] ++ bodyFnRefs rest := by
   simp [bodyFnRefs]
@@ -412,6 +427,7 @@ theorem keepsId_redecl (e i : Bool) : KeepsId (redeclFlags e i) := by
     split <;> split <;> exact ⟨rfl, rfl⟩
   · exact ⟨rfl, rfl⟩
 
+omit [Rules] in
 theorem T_none_iff (gs : List Obj) (f : Name) : T gs f = none ↔ findFunc gs f = none := by
   simp [T]
 
@@ -976,11 +992,13 @@ theorem T_parse {ds : List Decl} {st : PState} (h : declAll {} ds = .ok st) (f :
   rw [T_declAll ds h, foldT_eq]
   rfl
 
+omit [Rules] in
 theorem allBodyRefs_cons (d : Decl) (ds : List Decl) (f : Name) :
     allBodyRefs (d :: ds) f =
       (match d with | .func g _ _ _ _ (some b) => if g = f then bodyFnRefs b else [] | _ => []) ++ allBodyRefs ds f := by
   simp [allBodyRefs, List.flatMap_cons]
 
+omit [Rules] in
 theorem allBodyRefs_undeclared : ∀ (ds : List Decl) (f : Name), firstFlags ds f = none → allBodyRefs ds f = []
   | [], _, _ => rfl
   | d :: ds, f, h => by
@@ -997,9 +1015,11 @@ theorem allBodyRefs_undeclared : ∀ (ds : List Decl) (f : Name), firstFlags ds 
       rw [allBodyRefs_undeclared ds f h']
       rfl
 
+omit [Rules] in
 theorem isFn_eq_T (gs : List Obj) (f : Name) : isFn gs f = (T gs f).isSome := by
   simp [isFn, T]
 
+omit [Rules] in
 theorem refsOf_eq_T (gs : List Obj) (f : Name) : refsOf gs f = ((T gs f).map (·.refs)).getD [] := by
   unfold refsOf T
   cases findFunc gs f <;> rfl
